@@ -28,7 +28,7 @@ def generate(ctx):
         names = "plain" if rng.random() < 0.85 else "adv"
         g = cfglib.rand_cfg(rng, names=names, max_vars=3, max_prods=5, max_body=3)
         c = {"op": op, "g": g, "maxlen": 4 if ctx.tier == "quick" else 5, "operator": rng.random() < 0.3,
-             "warm": rng.choice([None, None, ["to_normal_form"], ["is_empty"]])}
+             "warm": rng.choice([None, None, ["to_normal_form"], ["is_empty"]]) if op != "reverse" else rng.choice([None, ["to_normal_form"], ["to_normal_form"], ["is_finite"]])}
         if op in ("union", "concatenate"):
             if rng.random() < 0.12:
                 c["same_object"] = True
